@@ -16,7 +16,8 @@ S(s) == StrV(s)
 Scalars == {I32(1), I32(2), S("x"), Null} \cup (IF Params.big THEN {I64(1), Bool(TRUE)} ELSE {})
 SubDocs == {D(<<>>), D(<< <<"b", I32(1)>> >>), D(<< <<"b", I32(2)>> >>), D(<< <<"b", Null>> >>),
             D(<< <<"b", A(<<I32(1), I32(2)>>)>> >>), D(<< <<"b", A(<<>>)>> >>), D(<< <<"c", I32(1)>> >>),
-            D(<< <<"1", I32(1)>> >>), D(<< <<"1", D(<< <<"b", I32(2)>> >>)>> >>)}     \* numeric field names inside array elements
+            D(<< <<"1", I32(1)>> >>), D(<< <<"1", D(<< <<"b", I32(2)>> >>)>> >>),     \* numeric field names inside array elements
+            D(<< <<"b", A(<<D(<< <<"c", I32(1)>> >>), D(<< <<"c", A(<<I32(1), I32(2)>>)>> >>)>>)>> >>)}    \* a second level of fan-out under a.b
             \cup (IF Params.big THEN {D(<< <<"b", D(<< <<"c", I32(1)>> >>)>> >>), D(<< <<"b", S("x")>>, <<"c", I32(2)>> >>)} ELSE {})
 Elems == Scalars \cup SubDocs
 Arrays == {A(<<>>)} \cup {A(<<x>>) : x \in Elems} \cup {A(<<x, y>>) : x \in Elems, y \in Elems}
@@ -64,7 +65,20 @@ Impl == MatchImpl(d, Filter)
 (* path that traverses an array never matches, because the leaf arrays are merged away.  It is     *)
 (* excluded here so that the bounded agreement check stays meaningful for everything else; on real *)
 (* code the trace check reports it as a KNOWN-FINDING.                                             *)
-KnownDeviation == cond[1] = "$type" /\ cond[2] = S("array") /\ Traverses(d, p)
+(* KF-C10-3: $size on a path that passes through two arrays sees the array of collected (missing) members *)
+RECURSIVE Crossed(_, _)
+Crossed(v, q) ==      \* number of arrays a walk along q passes through (with path left over)
+  IF q = <<>> THEN 0
+  ELSE IF v.t = "doc" THEN (IF HasField(v, Head(q)) THEN Crossed(Field(v, Head(q)), Tail(q)) ELSE 0)
+  ELSE IF v.t = "arr" THEN
+       LET viaIdx == IF IdxOf(Head(q)) >= 0 /\ IdxOf(Head(q)) < Len(v.a) THEN {Crossed(v.a[IdxOf(Head(q)) + 1], Tail(q))} ELSE {}
+           viaDocs == {Crossed(v.a[i], q) : i \in {j \in 1..Len(v.a) : v.a[j].t = "doc"}}
+           viaArrs == IF \E i \in 1..Len(v.a) : v.a[i].t = "arr" THEN {1} ELSE {}
+           all == viaIdx \cup viaDocs \cup viaArrs \cup {0}
+       IN 1 + (CHOOSE m \in all : \A x \in all : x <= m)
+  ELSE 0
+KnownDeviation == \/ (cond[1] = "$type" /\ cond[2] = S("array") /\ Traverses(d, p))
+                  \/ (cond[1] = "$size" /\ Crossed(d, p) >= 2)
 
 (* every disagreement inside the core domain is printed; the run continues so that all of them are seen *)
 Agree == Active => ((InCore(d, Filter) /\ ~KnownDeviation) =>
